@@ -256,6 +256,7 @@ func Model(t *rapid.T, o Opts) *m.Model {
 		}
 	}
 	repairStratification(mo)
+	mo.SparseMeta = chance(t, "sparseMeta", 20)
 	return mo
 }
 
